@@ -25,8 +25,9 @@ func init() {
 // terms
 
 type termer struct {
-	p    *Prog
-	node ssa.Value // the node whose facts are abstracted as n
+	p       *Prog
+	node    ssa.Value // the node whose facts are abstracted as n
+	byIndex bool      // name parameters/free variables by position, indices as *, loop phis as φ
 }
 
 func (t *termer) nodeTerm(v ssa.Value) string {
@@ -51,8 +52,14 @@ func (t *termer) term(v ssa.Value, d int) string {
 		}
 		return describeValue(x)
 	case *ssa.Parameter:
+		if t.byIndex {
+			return fmt.Sprintf("p%d", inputIndex(x.Parent(), x))
+		}
 		return x.Name()
 	case *ssa.FreeVar:
+		if t.byIndex {
+			return fmt.Sprintf("f%d", inputIndex(x.Parent(), x)-len(x.Parent().Params))
+		}
 		return x.Name()
 	case *ssa.BinOp:
 		if x.Op == token.ADD {
@@ -67,6 +74,11 @@ func (t *termer) term(v ssa.Value, d int) string {
 				return fieldName(fa.X.Type(), fa.Field) + "(" + t.term(fa.X, d+1) + ")"
 			}
 			if ia, ok := x.X.(*ssa.IndexAddr); ok {
+				if t.byIndex {
+					if _, isConst := ia.Index.(*ssa.Const); !isConst {
+						return "at(" + t.term(ia.X, d+1) + ",*)"
+					}
+				}
 				return "at(" + t.term(ia.X, d+1) + "," + t.term(ia.Index, d+1) + ")"
 			}
 			if r := resolve(x); r != ssa.Value(x) {
@@ -113,6 +125,9 @@ func (t *termer) term(v ssa.Value, d int) string {
 		}
 		return name + "(" + strings.Join(args, ",") + ")"
 	case *ssa.Phi:
+		if t.byIndex && inLoop(x) {
+			return "φ"
+		}
 		var parts []string
 		for _, c := range t.phiCases(x, d) {
 			parts = append(parts, c.cond+"?"+c.term)
